@@ -199,7 +199,9 @@ impl<T> Pool<T> {
         crate::verif::point("um.get.after_permit");
         let obj = {
             let mut queue = inner.queue.lock().unwrap();
-            queue.pop().unwrap()
+            // The queue is empty if the pool was closed (and cleared) after the
+            // permit was acquired.
+            queue.pop().ok_or(PoolError::Closed)?
         };
         permit.forget();
         let _ = inner.available.fetch_sub(1, Ordering::Relaxed);
@@ -240,7 +242,9 @@ impl<T> Pool<T> {
         crate::verif::point("um.get.after_permit");
         let obj = {
             let mut queue = inner.queue.lock().unwrap();
-            queue.pop().unwrap()
+            // The queue is empty if the pool was closed (and cleared) after the
+            // permit was acquired.
+            queue.pop().ok_or(PoolError::Closed)?
         };
         permit.forget();
         let _ = inner.available.fetch_sub(1, Ordering::Relaxed);
